@@ -90,11 +90,16 @@ func newEnvRmCmd(env *envCommand) *cobra.Command {
 			if docNode.Kind != yaml.DocumentNode {
 				return nil
 			}
-			valuesNode, ok := encoding.YAMLSyntax{Node: &docNode}.Get(resource.PropertyPath{"values"})
-			if !ok {
-				return nil
+			if len(path) != 0 && path[0] == "imports" {
+				// Like `env set` and `env get`, address the imports from the root of the definition.
+				err = encoding.YAMLSyntax{Node: &docNode}.Delete(nil, path)
+			} else {
+				valuesNode, ok := encoding.YAMLSyntax{Node: &docNode}.Get(resource.PropertyPath{"values"})
+				if !ok {
+					return nil
+				}
+				err = encoding.YAMLSyntax{Node: valuesNode}.Delete(nil, path)
 			}
-			err = encoding.YAMLSyntax{Node: valuesNode}.Delete(nil, path)
 			if err != nil {
 				return err
 			}
